@@ -161,6 +161,17 @@ def handle (op : String) (args : List String) : String :=
       | none => "big"
       | some p => s!"ok {hexOfBytes p.1} {p.2} {sParsedReq (parseInvokeReq (wireOf p))}"
     | _, _, _, _, _ => "bad-op"
+  | "fwd", q :: a :: t :: b :: ex =>
+    match pU64 q, pU64 a, pBool t, bytesOfHex b, pReqExtra ex with
+    | some q, some a, some t, some b, some ex =>
+      match preparePacket { body := b, actorId := a, extra := ex, tl2 := t, queryId := q } with
+      | none => "big"
+      | some p =>
+        match viaProxy (wireOf p) with
+        | .error e => "proxy-" ++ sRErr e
+        | .ok none => "fwd-big"
+        | .ok (some r) => errPrefix (sParsedReq r)
+    | _, _, _, _, _ => "bad-op"
   | "parse", [w] =>
     match bytesOfHex w with
     | some w => errPrefix (sParsedReq (parseInvokeReq w))
